@@ -4,7 +4,7 @@ length of the converted path (contig length for a bare contig) and that the CIGA
 import os
 
 from rtc import convlib
-from rtc.gen import make_rgfa, gaf_record, write_lines, all_ranges
+from rtc.gen import make_rgfa, gaf_record, write_lines, all_ranges, colon_contigs
 
 
 def cases(ctx, n_graphs, max_steps):
@@ -12,6 +12,8 @@ def cases(ctx, n_graphs, max_steps):
         g = make_rgfa(ctx.rng, n_ref=ctx.rng.randint(2, 5), max_len=3, n_bubbles=ctx.rng.randint(0, 2),
                       hap_mode=ctx.rng.choice(["adjacent", "separated", "mixed"]), inversion=ctx.rng.random() < 0.5,
                       self_link=ctx.rng.random() < 0.2, n_chrom=ctx.rng.choice([1, 1, 2]))
+        if gi % 5 == 3:
+            g = colon_contigs(g)  # contig names containing ':' (F18)
         walks = g.walks(max_steps)
         if len(walks) > 60:
             walks = ctx.rng.sample(walks, 60)
